@@ -14,7 +14,18 @@
 
    Part 2 of the file is the *specification*: the reference functions the
    theorems of C14_Props relate the loops to and that the property checker
-   [c14_holds] uses.  No proofs in this file. *)
+   [c14_holds] uses.  No proofs in this file.
+
+   Key and value types whose == is not reflexive (float NaN) are the subject of
+   C14_ModelNaN.v, which is generic in the equality; this file is its instance
+   at K = V = Z (C14_nan_conservative).  Four loops were repaired in /repo for
+   NaN keys after this file was written (Invert d979ad3, PickBy d5dd95e, Find
+   aa675fa, PartitionMap 8c13ccc): [invert], [pick_by], [find_with] and
+   [partition_map] below are the loops BEFORE those commits; the loops as they
+   are now are [ginvert], [gpick_by], [gfind_with], [gpartition_map] of
+   C14_ModelNaN.v, and C14_nan_conservative_repaired proves them equal to the
+   ones here on every well-formed map with reflexive keys — so the theorems of
+   C14_Props part 1 are theorems about the code as it is now. *)
 
 From Gogu Require Import Base.
 Local Open Scope Z_scope.
